@@ -20,7 +20,7 @@ def strace_run(ctx, binp, kind, layout, goroutines, calls, out, extra=()):
     tr = os.path.join(d, "strace.txt")
     ackr, ackw = os.pipe()
     so = open(os.path.join(d, "stdout.txt"), "wb")
-    cmd = ["strace", "-f", "-e", "trace=write,writev,pwrite64", "-s", "9000", "-o", tr, binp, "crashchild",
+    cmd = ["strace", "-f", "-e", "trace=write,writev,pwrite64", "-s", "120000", "-o", tr, binp, "crashchild",
            "--kind", kind, "--layout", layout, "--dir", d, "--goroutines", str(goroutines), "--calls", str(calls)] + list(extra)
     # the child writes acknowledgements to fd 3
     p = subprocess.Popen(cmd, stdout=so, stderr=subprocess.PIPE, pass_fds=(), preexec_fn=lambda: os.dup2(ackw, 3),
@@ -123,12 +123,17 @@ def run(ctx):
     # formatting buffers whose capacity equals the buffer-reuse cap (1 KiB, lines of ~900 bytes), four goroutines
     capb = [("file", "TextLayout", 4, 150), ("console", "JSONLayout", 4, 150)]
     runs += capb
+    # lines longer than any plausible chunk size (40 KB), two goroutines: one write(2) per line all the same
+    longl = [("console", "TextLayout", 2, 7), ("file", "JSONLayout", 2, 7), ("console", "JSONLayout", 3, 5)]
+    runs += longl
     for i, (kind, layout, g, n) in enumerate(runs):
         extra = []
         if (kind, layout, g, n) in sweep:
             extra += ["--padsweep", "3850"]
         if (kind, layout, g, n) in capb:
             extra += ["--bufcap", "1KB", "--padfixed", "800"]
+        if (kind, layout, g, n) in longl:
+            extra += ["--padfixed", "40000"]
         if i % 2 == 1:
             extra += ["--layoutat", "logger"]          # the logger formats, the appender's Write path is used
         if layout == "TextLayout" and i % 3 == 0:
